@@ -962,8 +962,23 @@ func (e *c08Engine) GetWatches(name string) ([]engine.WatchID, error) {
 	return e.w.eng.GetWatches(name)
 }
 
+// StartWatches: a controller started by a live XRD reconcile gets the same single watch of
+// its instance kind in the REAL engine as the controllers of the initial world (newEngine),
+// so that a failing watch stop makes the real engine.Stop fail half-way for it too (the
+// controller keeps running) instead of the failure being reported after a completed Stop.
 func (e *c08Engine) StartWatches(name string, ws ...engine.Watch) error {
-	return e.w.cur.nonStore("startWatches:"+name, func() error { return nil })
+	w := e.w
+	return w.cur.nonStore("startWatches:"+name, func() error {
+		if ids, err := w.eng.GetWatches(name); err != nil || len(ids) > 0 {
+			return nil
+		}
+		kind := &unstructured.Unstructured{}
+		kind.SetGroupVersionKind(c08XRGVK)
+		if name == claim.ControllerName(c08XRDName) {
+			kind.SetGroupVersionKind(c08ClaimGVK)
+		}
+		return w.eng.StartWatches(name, engine.WatchFor(kind, engine.WatchTypeCompositeResource, nil))
+	})
 }
 
 func (e *c08Engine) StopWatches(ctx context.Context, name string, ws ...engine.WatchID) (int, error) {
